@@ -127,6 +127,9 @@ func TestVerifC20(t *testing.T) {
 				h.Viol("shuffle", l, "", "shuffle-not-deterministic", map[string]any{"len": l})
 			}
 			h.Inc("shuffles")
+			if rep > 0 {
+				h.Count("cases", 1) // every (length, entropy, fill) triple is one evaluation; CaseLight counted rep 0
+			}
 			if l >= 2 {
 				h.Distinct("sh", l, e[:])
 			}
